@@ -131,6 +131,7 @@ func c08spec[V comparable](comp string, def, step int, keys []string, vals []V, 
 		New: func(string) seqmc.Sys {
 			s := &c08sys[V]{def: def, step: step, keys: keys, vals: vals, rejects: rejects, maps: maps, model: map[string]c08ent[V]{}}
 			vrt.FakeClock = &s.clock
+			vrt.ResetObjIDs()
 			s.ca = cache.New[string, V](time.Duration(def)*unit, 0)
 			return s
 		}}
